@@ -79,6 +79,17 @@ var shmDir string
 func shmRoot() string {
 	shmOnce.Do(func() {
 		const base = "/dev/shm"
+		// directories of runs that died without cleaning up
+		if des, err := os.ReadDir(base); err == nil {
+			for _, de := range des {
+				var pid int
+				if n, _ := fmt.Sscanf(de.Name(), "verif-c03-%d", &pid); n == 1 && pid != os.Getpid() {
+					if _, e := os.Stat(fmt.Sprintf("/proc/%d", pid)); os.IsNotExist(e) {
+						os.RemoveAll(filepath.Join(base, de.Name()))
+					}
+				}
+			}
+		}
 		if freeBytes(base) < 4<<30 {
 			return
 		}
@@ -607,6 +618,7 @@ type mImage struct {
 	logs   []string
 	parent *mImage
 	kindOf string
+	synth  bool // a disk no crash leaves (files removed by hand): model = implementation only
 }
 
 // compose builds the image directory: base (wal, index at rest) + M0 outside the footprints +
@@ -830,7 +842,7 @@ func (nr *mNestRec) after(op, rel, rel2 string, n int64) {
 	}
 	relocateTxn(dst, nr.root)
 	ents, logs := mListDisk(dst)
-	nr.images = append(nr.images, &mImage{dir: dst, parent: nr.parent, picks: nr.parent.picks, kindOf: "second-level",
+	nr.images = append(nr.images, &mImage{dir: dst, parent: nr.parent, picks: nr.parent.picks, kindOf: "second-level", synth: nr.parent.synth,
 		desc: fmt.Sprintf("%s; recovery interrupted after %s %s %s", nr.parent.desc, op, rel, rel2), ents: ents, logs: logs})
 }
 
@@ -1113,6 +1125,7 @@ func runMultiHistory(c *hx.Ctx, r *hx.Rng, idx int, workers int, thorough bool) 
 		picks []pick
 		stale string
 		kind  string
+		synth string // "", "drop-new", "drop-new-and-old", "hide-old"
 	}
 	var plans []plan
 	var cand []*mReorg
@@ -1140,8 +1153,23 @@ func runMultiHistory(c *hx.Ctx, r *hx.Rng, idx int, workers int, thorough bool) 
 					dps[1] = dirtyPositions(a, r)[3]
 				}
 			}
+			// the positions with the new files renamed and old files still there first: a start-up
+			// that does not finish b shows there as duplicated rows (the most telling replay)
+			mids := thin(midPositions(b), maxMid)
+			sort.SliceStable(mids, func(x, y int) bool {
+				rank := func(p pos) int {
+					switch {
+					case strings.HasPrefix(p.label, "after-P"):
+						return 0
+					case strings.HasPrefix(p.label, "after-R"), strings.HasPrefix(p.label, "after-H"):
+						return 1
+					}
+					return 2
+				}
+				return rank(mids[x]) < rank(mids[y])
+			})
 			for di, dp := range dps {
-				for mi, mp := range thin(midPositions(b), maxMid) {
+				for mi, mp := range mids {
 					for order := 0; order < 2; order++ {
 						if !thorough && (di+mi+order)%2 == 1 && mi != 0 {
 							continue // quick: each mid position with one order per dirty kind, alternating
@@ -1218,6 +1246,23 @@ func runMultiHistory(c *hx.Ctx, r *hx.Rng, idx int, workers int, thorough bool) 
 	if len(cand) < 2 || nPairs == 0 {
 		c.Count("multi-history-without-independent-pair")
 	}
+	// disks no crash leaves, to exercise the other two branches of processLog (roll back when a
+	// new file is missing and every old file is there under one of its names; "invalid compact
+	// log" when neither set is complete): implementation against model only
+	var synth []plan
+	for _, b := range cand {
+		for _, mp := range thin(midPositions(b), 3) {
+			if mp.k >= len(b.tokens) {
+				continue // log already removed
+			}
+			for _, mut := range []string{"drop-new", "drop-new-and-old", "hide-old"} {
+				if !thorough && r.Chance(50) {
+					continue
+				}
+				synth = append(synth, plan{picks: []pick{{b, mp.k, 0, logNames[1]}}, kind: "synthetic-" + mut, synth: mut})
+			}
+		}
+	}
 	limit := 90
 	if thorough {
 		limit = 400
@@ -1234,6 +1279,10 @@ func runMultiHistory(c *hx.Ctx, r *hx.Rng, idx int, workers int, thorough bool) 
 		}
 		plans = sel
 	}
+	if len(synth) > limit/4 {
+		synth = synth[:limit/4]
+	}
+	plans = append(plans, synth...)
 
 	imgs := make([]*mImage, 0, len(plans))
 	for i, pl := range plans {
@@ -1253,6 +1302,24 @@ func runMultiHistory(c *hx.Ctx, r *hx.Rng, idx int, workers int, thorough bool) 
 			continue
 		}
 		relocateTxn(dst, root)
+		if pl.synth != "" {
+			ro := pl.picks[0].ro
+			rm := func(name string) {
+				os.Remove(filepath.Join(dst, ro.dirRel(), name))
+				os.Remove(filepath.Join(dst, ro.dirRel(), name+tmpSuffix))
+			}
+			switch pl.synth {
+			case "drop-new":
+				rm(ro.news[r.Intn(len(ro.news))])
+			case "drop-new-and-old":
+				rm(ro.news[r.Intn(len(ro.news))])
+				rm(ro.olds[r.Intn(len(ro.olds))])
+			case "hide-old":
+				rm(ro.news[r.Intn(len(ro.news))])
+				o := filepath.Join(dst, ro.dirRel(), ro.olds[r.Intn(len(ro.olds))])
+				os.Rename(o, o+tmpSuffix)
+			}
+		}
 		ents, logs := mListDisk(dst)
 		var ds []string
 		for _, p := range pl.picks {
@@ -1265,14 +1332,14 @@ func runMultiHistory(c *hx.Ctx, r *hx.Rng, idx int, workers int, thorough bool) 
 		if pl.stale != "" {
 			ds = append(ds, fmt.Sprintf("[stale dirty log %s of %d bytes]", pl.stale, len(sb)))
 		}
-		imgs = append(imgs, &mImage{dir: dst, picks: pl.picks, stale: pl.stale, kindOf: pl.kind, ents: ents, logs: logs,
+		imgs = append(imgs, &mImage{dir: dst, picks: pl.picks, stale: pl.stale, kindOf: pl.kind, ents: ents, logs: logs, synth: pl.synth != "",
 			desc: fmt.Sprintf("multi-history %d (%s): %s", idx, k.String(), strings.Join(ds, " + "))})
 	}
 
 	// ---- recover
 	nestBudget := 2
 	if thorough {
-		nestBudget = 8
+		nestBudget = 4
 	}
 	results := make([]mRecResult, len(imgs))
 	parallel := func(n int, f func(i int)) {
@@ -1295,7 +1362,7 @@ func runMultiHistory(c *hx.Ctx, r *hx.Rng, idx int, workers int, thorough bool) 
 	}
 	parallel(len(imgs), func(i int) {
 		nb := 0
-		if thorough || i%5 == 0 {
+		if (thorough && i%2 == 0) || i%5 == 0 {
 			nb = nestBudget
 		}
 		results[i] = recoverMulti(imgs[i], msts, nParts, nb, imgRoot)
@@ -1348,6 +1415,11 @@ func runMultiHistory(c *hx.Ctx, r *hx.Rng, idx int, workers int, thorough bool) 
 		}
 		line := c.Emit(fmt.Sprintf("mcrash files=%s logs=%s", strings.Join(img.ents, ","), strings.Join(img.logs, ";")), ans)
 		var bad []string
+		if img.synth {
+			c.Count("multi-image:" + img.kindOf)
+			c.Case(fmt.Sprintf("multi|%s|%v", img.kindOf, img.logs), true)
+			return
+		}
 		if res.err != "" {
 			bad = append(bad, "recovery failed: "+res.err)
 		} else {
